@@ -157,11 +157,12 @@ CLAIMED['C05'] = dict(
          "a split on the kind of basis member applies a scale exponent the column arm uses the column exponent and the slack arm the row exponent with "
          "opposite signs; exponents are looked up at number(baseId(E)) of the member that was tested, or at the decoded row index, never at the basis "
          "position, and at an index whose domain (loop bound, vector dimension, parameter contract) is the rows for a row exponent and the columns for "
-         "a column exponent; the scaler object is dereferenced only under a test of the pointer itself; sparse outputs are filled within *ninds after "
+         "a column exponent; the scaler object is dereferenced only under a test of the pointer itself (or see below); sparse outputs are filled within *ninds after "
          "setup(); products with the basis matrix are accumulated, never collected by appending sparse vectors and densifying; scaled and unscaled "
          "variants of an operation are exclusive; no raw caller-supplied value is combined with a product of a scaled internal vector while scaling is "
-         "being undone. Five instances fire on the unchanged tree and are reported as KNOWN-FINDING (null scaler after the scaler parameter is "
-         "switched off). Not a proof that the solves return the inverse.",
+         "being undone. The scaler pointer may also be dereferenced under the scaled state of the LP, provided every assignment of that pointer "
+         "keeps the invariant scaled => pointer is the scaler that scaled (the five instances that fired until the fourth session are repaired: F28). "
+         "Not a proof that the solves return the inverse.",
     technique="discarded-result, net-exponent sign/kind pairing, index-provenance and index-domain, null-discipline, accumulation-shape and homogeneity-under-assumption rules over the clang-resolved AST and CFG",
     ref="DESIGN.md section 4, C05")
 
